@@ -67,6 +67,21 @@ for nm in ['user@host', 'a@b', '@x', 'x@', '@', 'a.b@c']:
             t3 = remove_value(source=parse(t2), npath=path); l3 = read_layers(t3)
             if l3 is None or any(quote(nm) in L for L in l3): viol.append({'what': 'scoped rm with a name that contains @ does not remove the binding', 'path': path, 'doc': doc_, 'text': t3})
         except Exception as ex: viol.append({'what': 'scoped edit with a name that contains @ raises %s' % type(ex).__name__, 'path': path, 'doc': doc_})
+# ---- unconditional core (tenth round: a spelling met only by chance is a spelling missed when the generator changes): every special first name x
+# every plain or special second name, two and three segments: written as that path, found by a second set, removed by rm
+for first in ['x.y', 'b c', 'if', '9z', 'é', 'a"b', 'a\\b', '${x}', '', ' ', "q'", 'a.b.c', '.']:
+    for rest in (['b'], ['k1', 'z'], ['x.y'], ['b', 'c.d'], ["q'"]):
+        nm_ = [first] + rest; path = '.'.join(spell(x) if x != '' else '""' for x in nm_)
+        for doc_ in ('{ }', '{\n  x = 1;\n}\n'):
+            n_eval += 1; kinds['core-paths'] = kinds.get('core-paths', 0) + 1; case = {'doc': doc_, 'path': path, 'names': nm_}
+            try:
+                o1 = set_value(source=parse(doc_), npath=path, value='7'); t1, d1 = tree_of(o1)
+                if t1 is None or t1.get(tuple(nm_)) != '7' or d1: viol.append(dict(case, out=o1, what='Nix reads back %r, expected path %r = 7' % (sorted(t1) if t1 else None, nm_))); continue
+                o2 = set_value(source=parse(o1), npath=path, value='8'); t2, d2 = tree_of(o2)
+                if t2 is None or t2.get(tuple(nm_)) != '8' or d2 or len(t2) != len(t1): viol.append(dict(case, out=o2, what='second set with the same path did not find the same binding')); continue
+                o3 = remove_value(source=parse(o2), npath=path); t3, _ = tree_of(o3)
+                if t3 is None or tuple(nm_) in t3: viol.append(dict(case, out=o3, what='rm with the same path did not remove the binding'))
+            except Exception as ex: viol.append(dict(case, what='core path raises %s: %s' % (type(ex).__name__, ex)))
 # a malformed bare segment after a quoted one is refused like anywhere else
 for bad_path in ['"a"..b', '"a".', '"a".1x', '"a".b c', '"a b".', '"a".b..c', '"a"."b".-']:
     n_eval += 1; kinds['malformed-after-quoted'] = kinds.get('malformed-after-quoted', 0) + 1
